@@ -60,3 +60,21 @@ def split_statements(src: str):
         start = min([n.lineno] + [d.lineno for d in getattr(n, "decorator_list", [])])
         out.append("".join(lines[start - 1:n.end_lineno]))
     return [s if s.endswith("\n") else s + "\n" for s in out]
+
+
+def layouts(src: str):
+    """layout variants of the same program: LF / CRLF, missing final newline, tabs for indentation, leading form feed, leading comment
+    and blank line, a backslash continuation, a trailing comment"""
+    out = [src]
+    out.append(src.replace("\n", "\r\n"))
+    out.append(src.rstrip("\n"))
+    if "    " in src and "'''" not in src and '"""' not in src:
+        out.append(src.replace("    ", "\t"))
+    lines = src.splitlines(keepends=True)
+    if lines and not lines[0].startswith((" ", "\t", "@")) and "\\\n" not in src:
+        out.append("\f" + src)
+        out.append("# leading comment\n\n" + src)
+    if len(lines) == 1 and " = " in src and "'" not in src and '"' not in src:
+        out.append(src.replace(" = ", " = \\\n    ", 1))
+        out.append(src.rstrip("\n") + "  # trailing comment\n")
+    return list(dict.fromkeys(out))
